@@ -2028,6 +2028,27 @@ func (fv *FuncVerifier) checkAssertsBefore(s ast.Stmt, st *State, after bool) {
 		if after {
 			at = s.End()
 		}
+		if ab.Apply != "" {
+			// lemma application: prove its hypotheses for these arguments, assume its conclusions
+			lsp := fv.prog.specs[fv.spec.PkgPath+".lemma."+ab.Apply]
+			if lsp == nil {
+				reject("apply_after: lemma %s not found", ab.Apply)
+			}
+			var vals []Term
+			for _, ac := range ab.ApplyArgs {
+				vals = append(vals, fv.evalClauseHere(ac, st, at))
+			}
+			fv.clauseCtx = saved
+			for k, c := range lsp.Requires {
+				fv.oblige(st, "apply-pre", fmt.Sprintf("%d:%d", i, k), fv.evalWrapper(lsp.PkgPath, c.Wrapper, vals, st, nil), s.Pos(), "hypothesis of lemma "+ab.Apply+" applied after `"+ab.Anchor+"`: "+c.Text)
+			}
+			for _, c := range lsp.Ensures {
+				st.assume(fv.evalWrapper(lsp.PkgPath, c.Wrapper, vals, st, st))
+			}
+			fv.contractUsed[lsp.Key] = true
+			fv.u.note("lemma %s applied (proved separately: obligation %s#lemma:*)", ab.Apply, shortName(lsp.Key))
+			continue
+		}
 		if ab.Havoc {
 			// interference: the named location may have been changed by another goroutine
 			tg := fv.evalLoopModTarget(ab.Clause, st, at)
